@@ -204,10 +204,16 @@ statement `id` to `sid` (not a backtrace replay). `flagLog` holds `(flag, length
 /-- every system that is fresh in the sense of the three proof bundles, with no flag logged and the F12 repair in
     force, is a start state of the contract -/
 theorem C06_startC (s : BSt) (ha : PA.Fresh s) (hc : LoggerFresh s) (hf : StartF s) (h1 : s.flagLog = [])
-    (h2 : s.cfg.flushInvalidatedLoggers = true) : StartC s := ⟨ha, hc.inv, hf, h1, h2⟩
+    (h2 : s.cfg.flushInvalidatedLoggers = true)
+    (h3 : s.cfg.flushInterval = 0 ∨ s.cfg.flushBeforeLoggerErase = true) : StartC s := ⟨ha, hc.inv, hf, h1, h2, h3⟩
 
-/-- **C06, the contract of `flush_log()`.** For every schedule from a fresh system (with the flush covering loggers
-    marked invalid — F12 repaired): let `st` be a Flush request of context `i` (everything the calling thread logged
+/-- **C06, the contract of `flush_log()`.** For every schedule from a fresh system, **every `sink_min_flush_interval`**
+    (`StartC`: the flush covers loggers marked invalid — F12 repaired —, and either the interval is 0 or the logger
+    clean-up flushes before it erases — F33 repaired; `C06_erased_logger_sink_never_flushed_unrepaired` shows the schedule
+    that breaks the contract otherwise). The proof does not use the idle-branch flush at all when the interval is not 0
+    (`CI.flushGate` only keeps the invariant there): the third clause follows from the Flush event's own
+    `_flush_and_run_active_sinks(false, 0)` (`C06_flush_step`) and from "a sink with unflushed output is reachable through a
+    logger that is not erased" (`C06_erased_logger_sinks_flushed`). Let `st` be a Flush request of context `i` (everything the calling thread logged
     before it is `pre`), whose flag `f` is raised — `flush_log()` can return. Then `flagLog` holds the position `n` of
     the raise, and with `raised` = the history as it was at that moment (the oldest `n` events) and `later` = what came
     after:
@@ -251,6 +257,36 @@ theorem C06_nothing_unflushed_at_raise (s0 : BSt) (h0 : StartC s0) (ops : List O
     (hn : (f, n) ∈ (runOps s0 ops).flagLog) (sid : Nat) :
     n ≤ (runOps s0 ops).log.length ∧ unfl sid ((runOps s0 ops).log.drop ((runOps s0 ops).log.length - n)) = false :=
   ⟨(((start_TI h0).runOps ops).c.fl1 (f, n) hn).1, (((start_TI h0).runOps ops).c.fl1 (f, n) hn).2 sid⟩
+
+/-- **F33, the repaired clean-up: a logger is erased only with its sinks flushed.** In every reachable state (every
+    schedule, every interval — under `StartC`: interval 0 or `flushBeforeLoggerErase`), a sink that is no longer reachable
+    through any logger that is not erased holds no unflushed output: every write to it in the history — by whatever
+    thread, through whatever logger, however long ago — is followed by a flush of that sink (completed, or thrown and
+    reported). In particular right after `_cleanup_invalidated_loggers` erased the last logger that held the sink: the
+    flush at the head of the clean-up (or, with interval 0, of the idle pass) came after the last write. -/
+theorem C06_erased_logger_sinks_flushed (s0 : BSt) (h0 : StartC s0) (ops : List Op) (sid : Nat)
+    (hall : ∀ i, sid ∈ ((runOps s0 ops).lgOf i).sinks → ((runOps s0 ops).lgOf i).erased = true) :
+    unfl sid (runOps s0 ops).log = false ∧
+    ∀ a e b, (runOps s0 ops).log = a ++ e :: b → isWr sid e = true → ∃ x ∈ a, isFl sid x = true := by
+  have hT := (start_TI h0).runOps ops
+  have hu : unfl sid (runOps s0 ops).log = false := by
+    cases hx : unfl sid (runOps s0 ops).log with
+    | false => rfl
+    | true =>
+      obtain ⟨i, he, hs⟩ := hT.c.act sid hx
+      rw [hall i hs] at he; cases he
+  refine ⟨hu, fun a e b hsplit hw => ?_⟩
+  rw [hsplit] at hu
+  exact unfl_false_split sid a b e hu hw
+
+/-- the same as a statement about reachability: whatever a sink holds unflushed, a later Flush event / idle flush /
+    exit flush will reach it — it is a sink of a logger that is not erased (so `activeSinks` lists it, F12) -/
+theorem C06_unflushed_sink_reachable (s0 : BSt) (h0 : StartC s0) (ops : List Op) (sid : Nat)
+    (hu : unfl sid (runOps s0 ops).log = true) :
+    ∃ i, ((runOps s0 ops).lgOf i).erased = false ∧ sid ∈ ((runOps s0 ops).lgOf i).sinks ∧ sid ∈ activeSinks (runOps s0 ops) := by
+  have hT := (start_TI h0).runOps ops
+  obtain ⟨i, he, hs⟩ := hT.c.act sid hu
+  exact ⟨i, he, hs, mem_activeSinks_of hT.c.cfgF he hs⟩
 
 /-! ### witnesses -/
 
@@ -348,6 +384,51 @@ theorem C06_removed_logger_sink_flushed :
     (runOps c06TwoInit c06Removed).log.reverse.filterMap c06Code = [(0, 0), (1, 0), (1, 1)] := by
   decide
 
+/-- F33 schedule: thread 1 logs through logger 0 (sink 0, also held by the user), `remove_logger(0)`; the backend writes
+    the statement (first poll) and erases logger 0 in the idle branch of the second; then `flush_log()` through logger 1 -/
+def c06Erased : List Op :=
+  [ .front (.tstart 1), .front (.log 1 0 4 10 true), .front (.remove 1 0), .poll [], .poll [],
+    .front (.flush 1 1), .poll [], .front (.resume 1) ]
+
+/-- a non-zero `sink_min_flush_interval` (10 ms), last flush at the start time: the interval never elapses in the schedule -/
+def c06IntervalInit (repaired : Bool) : BSt :=
+  { c06TwoInit with cfg := { c06TwoCfg with flushInterval := 10000000, flushBeforeLoggerErase := repaired }, lastFlush := 1000 }
+
+/-- **F33 on the model, before the repair.** With a non-zero interval and no flush at the head of the logger clean-up, the
+    logger is erased while its sink holds the statement unflushed; the later Flush event reaches only sink 1: the flag is
+    raised, `flush_log()` returns, the history is `write sink 0, flushed sink 1` — sink 0 is never flushed (and the two
+    loggers' worth of state confirms logger 0 is erased). -/
+theorem C06_erased_logger_sink_never_flushed_unrepaired :
+    (runOps (c06IntervalInit false) c06Erased).flags = [0] ∧
+    (runOps (c06IntervalInit false) c06Erased).actors.map (fun x => x.pend matches .none) = [true] ∧
+    (runOps (c06IntervalInit false) c06Erased).lgs.map (·.erased) = [true, false] ∧
+    (runOps (c06IntervalInit false) c06Erased).log.reverse.filterMap c06Code = [(0, 0), (1, 1)] ∧
+    unfl 0 (runOps (c06IntervalInit false) c06Erased).log = true := by
+  decide
+
+/-- **F33 repaired** (`flushBeforeLoggerErase`, extracted): the clean-up flushes both sinks before it erases logger 0 -/
+theorem C06_erased_logger_sink_flushed :
+    (runOps (c06IntervalInit true) c06Erased).flags = [0] ∧
+    (runOps (c06IntervalInit true) c06Erased).lgs.map (·.erased) = [true, false] ∧
+    (runOps (c06IntervalInit true) c06Erased).log.reverse.filterMap c06Code = [(0, 0), (1, 0), (1, 1), (1, 1)] ∧
+    unfl 0 (runOps (c06IntervalInit true) c06Erased).log = false := by
+  decide
+
+/-- with interval 0 the unrepaired clean-up is harmless: the idle pass that erases has just flushed -/
+example :
+    (runOps { c06TwoInit with cfg := { c06TwoCfg with flushBeforeLoggerErase := false } } c06Erased).log.reverse.filterMap c06Code =
+      [(0, 0), (1, 0), (1, 1), (1, 1)] := by
+  decide
+
+/-- the gate itself: interval 10 ms, last flush at 1000; an idle poll at 1000 + 10 ms does not flush (`>` is strict),
+    one nanosecond later it does and records the time; the Flush event and the exit drain flush regardless -/
+example :
+    (runOps (c06IntervalInit true) [.front (.tick 10000000), .poll []]).log = [] ∧
+    (runOps (c06IntervalInit true) [.front (.tick 10000001), .poll []]).log.reverse.filterMap c06Code = [(1, 0), (1, 1)] ∧
+    (runOps (c06IntervalInit true) [.front (.tick 10000001), .poll []]).lastFlush = 10001001 ∧
+    (runOps (c06IntervalInit true) [.exit]).log.reverse.filterMap c06Code = [(1, 0), (1, 1)] := by
+  decide
+
 /-- a dropping queue of 64 bytes: the Flush request (40 bytes) does not fit behind a 47-byte statement -/
 def c06DropCfg : Cfg := { c05Cfg true with dropping := true, qcap := 64, grace := 0 }
 def c06DropInit : BSt := { c05Init true with cfg := c06DropCfg }
@@ -386,7 +467,7 @@ example :
   decide
 
 theorem c05Init_startC : StartC (c05Init true) := by
-  refine C06_startC _ ⟨by decide, rfl, rfl, rfl, rfl, fun i => ?_⟩ ?_ (c05Init_startF true) rfl rfl
+  refine C06_startC _ ⟨by decide, rfl, rfl, rfl, rfl, fun i => ?_⟩ ?_ (c05Init_startF true) rfl rfl (Or.inl rfl)
   · cases i with
     | zero => rfl
     | succ j => rw [PA.lgOf_default_of_ge _ _ (by simp [c05Init])]; rfl
